@@ -199,10 +199,10 @@ pub fn run(tier: Tier, replay: Option<Value>) -> i32 {
     let run = Run::new("C14", "fault_enumeration", tier, replay.clone());
     let resume_replay = replay.as_ref().and_then(|r| r.get("resume")).is_some();
     if !resume_replay {
-        run.par_cases(tier.pick(150, 2000), super::threads(), |c| one_history(&run, c));
+        run.par_cases(tier.pick(150, 6000), super::threads(), |c| one_history(&run, c));
     }
     if replay.is_none() || resume_replay {
-        run.par_cases(tier.pick(16, 128), super::threads(), |c| one_scenario(&run, c));
+        run.par_cases(tier.pick(16, 400), super::threads(), |c| one_scenario(&run, c));
     }
     let needs: &[(&str, u64)] = if replay.is_some() { &[] } else {
         &[("unchanged_tree_backups", 10), ("block_writes_observed", 100), ("resume_crash_points", 100), ("crash_points_with_recorded_file_entries", 20), ("recorded_entries_compared", 50)]
